@@ -337,6 +337,14 @@ func (e *SpecEnv) ident(x *SExpr) *Val {
 		if v, ok := fr.params[name]; ok {
 			return v
 		}
+		// a local that does not exist (yet) on this path: an arbitrary value of its type (sound for proofs)
+		for _, b := range fr.fn.Blocks {
+			for _, in := range b.Instrs {
+				if a, ok := in.(*ssa.Alloc); ok && a.Comment == name {
+					return freshVal(derefType(a.Type()), "undef."+name, e.te)
+				}
+			}
+		}
 	}
 	// package-level constants and variables
 	if p := e.typesPkg(); p != nil {
@@ -771,6 +779,12 @@ func (e *SpecEnv) call(x *SExpr) *Val {
 				}
 				_, ok := e.fr.snaps[args[0].Name]
 				return boolVal(BoolLit(ok))
+			case "tagged": // tagged(f, name): f is a closure whose contract carries "tag name"
+				if len(args) != 2 || args[1].Kind != "ident" {
+					e.fail(x, "tagged(value, tagname)")
+				}
+				fv := e.eval(args[0])
+				return boolVal(UF("tag!"+args[1].Name, SBool, fv.L[0]))
 			case "box": // box(v): the interface value holding v
 				v := e.eval(args[0])
 				return &Val{T: types.Universe.Lookup("any").Type(), L: []*Term{boxAny(v, e.te)}}
